@@ -119,7 +119,7 @@ def gen_chain(rng, prof, force_selflock=None):
             if hel is not None and rng.random() < 0.1:
                 hel = Q('Angle', 0.0, 'deg')
             for j in range(n_g):
-                g = {'type': kind, 'name': nm('g'), 'z': rng.randint(10, 40) if j == 0 else rng.randint(10, 90),
+                g = {'type': kind, 'name': nm('g'), 'z': rng.randint(10, 40) if j == 0 else (chain[-1]['z'] if rng.random() < 0.06 else rng.randint(10, 90)),          # sometimes equal teeth numbers: a ratio of exactly 1
                      'J': rq(rng, 'InertiaMoment', 1e-7, 3e-4)}
                 if hel is not None:
                     g['helix'] = dict(hel)
@@ -145,6 +145,8 @@ def gen_chain(rng, prof, force_selflock=None):
                     f = sig(rng.uniform(crit * 1.05, min(1.0, crit * 3 + 0.05)), 3)
             else:
                 f = sig(rng.uniform(0, 0.95 * crit), 3) if (force_selflock is False or rng.random() < 0.8) else sig(rng.uniform(0, min(1.0, 2 * crit)), 3)
+                if rng.random() < 0.05:
+                    f = rng.choice([0, 0.0])          # a frictionless worm mating (documented range [0, 1])
             wg = {'type': 'wormgear', 'name': nm('wg'), 'n_starts': rng.randint(1, 4), 'J': rq(rng, 'InertiaMoment', 1e-7, 1e-5),
                   'helix': Q('Angle', hx, 'deg'), 'pa': Q('Angle', pa, 'deg')}
             ww = {'type': 'wormwheel', 'name': nm('ww'), 'z': rng.randint(10, 60), 'J': rq(rng, 'InertiaMoment', 1e-6, 1e-3),
@@ -254,6 +256,10 @@ def gen_scenario(rng, prof=None, force_selflock=None):
         spd = rq(rng, 'AngularSpeed', 1e-3 * w_out, 1.5 * w_out, sign=rng.choice([-1, 1]))
         if rng.random() < 0.3:
             spd = Q('AngularSpeed', 0.0, spd['u'])
+        elif rng.random() < 0.07:
+            # the output starts exactly at the speed at which the motor runs at its no-load speed (zero driving torque at D = 1)
+            m_ = spec['motor']
+            spd = Q('AngularSpeed', m_['w0']['v'] / nums['G'], m_['w0']['u'])
     pwm = None
     if rng.random() < p['p_pwm_preset']:
         pwm = rng.choice([1, 0, -1, 0.5, -0.3, sig(rng.uniform(-1, 1), 3)])
